@@ -1590,6 +1590,22 @@ class LiteralForms(ast.NodeTransformer):
             D, k, v = c.func.value, c.args[0], c.args[1]
             new = ast.If(test=ast.Compare(left=clone_ast(k), ops=[ast.NotIn()], comparators=[clone_ast(D)]), body=[ast.Assign(targets=[ast.Subscript(value=clone_ast(D), slice=clone_ast(k), ctx=ast.Store())], value=v)], orelse=[])
             return ast.copy_location(new, node)
+        # D.update(k=v, ..) / D.update({"k": v, ..}) as a statement on a local name: D["k"] = v; ..
+        if isinstance(c, ast.Call) and isinstance(c.func, ast.Attribute) and c.func.attr == "update" and isinstance(c.func.value, ast.Name):
+            pairs = None
+            if not c.args and c.keywords and all(k.arg is not None for k in c.keywords):
+                pairs = [(ast.Constant(k.arg), k.value) for k in c.keywords]
+            elif len(c.args) == 1 and not c.keywords and isinstance(c.args[0], ast.Dict) and c.args[0].keys and all(isinstance(k, ast.Constant) for k in c.args[0].keys):
+                pairs = list(zip(c.args[0].keys, c.args[0].values))
+            if pairs and len(pairs) <= 8:
+                # the values are evaluated before any store: they must not read D
+                D = c.func.value.id
+                if not any(isinstance(n, ast.Name) and n.id == D for _, v in pairs for n in ast.walk(v)):
+                    self.count += 1
+                    out = [ast.copy_location(ast.Assign(targets=[ast.Subscript(value=ast.Name(id=D, ctx=ast.Load()), slice=k, ctx=ast.Store())], value=v), node) for k, v in pairs]
+                    for o in out:
+                        ast.fix_missing_locations(o)
+                    return out
         if isinstance(c, ast.Call) and isinstance(c.func, ast.Name) and c.func.id == "setattr" and len(c.args) == 3 and not c.keywords and isinstance(c.args[1], ast.Constant) and isinstance(c.args[1].value, str) and c.args[1].value.isidentifier():
             self.count += 1
             new = ast.Assign(targets=[ast.Attribute(value=c.args[0], attr=c.args[1].value, ctx=ast.Store())], value=c.args[2])
